@@ -1,5 +1,57 @@
+import NessaiVerif.Model.Tables
 import NessaiVerif.Driver.Parse
-/- stub: replaced by the owner of this area -/
+/-
+C14 line protocol (token `tab`).  Strings carry no spaces (the table generator strips them).
+
+  tab read <file> <func> <forward|guard|test|use>            → 1 / 0   (`readAllowed`)
+  tab call <file> <func> <method>                            → 1 / 0   (`callAllowed`)
+  tab rng <[seeded sources]> <source> <file> <func> <call>   → 1 / 0   (`siteOk`)
+  tab guarded <file> <func> <setting>                        → 1 / 0   (`guardedKnown`)
+  tab probe <allow0> <userPool> <detected|none> <nPoolArg|none> <cached none|0|1> <isVec>
+       → allow=<b> npool=<n|none> pool=<b> points=<n> vec=<b> cached=<none|0|1>
+-/
 namespace NessaiVerif.Driver.Tables
-def handle (_toks : List String) : String := "bad-op"
+open NessaiVerif NessaiVerif.Parse NessaiVerif.Tables
+
+def parseKind? : String → Option ReadKind
+  | "forward" => some .forward
+  | "guard" => some .guard
+  | "test" => some .test
+  | "use" => some .use
+  | _ => none
+
+def parseSource? : String → Option RngSource
+  | "numpyGlobal" => some .numpyGlobal
+  | "torchGlobal" => some .torchGlobal
+  | "delegated" => some .delegated
+  | "freshSeeded" => some .freshSeeded
+  | "freshUnseeded" => some .freshUnseeded
+  | "explicitGenerator" => some .explicitGenerator
+  | "stdlibRandom" => some .stdlibRandom
+  | "osEntropy" => some .osEntropy
+  | _ => none
+
+def handle (toks : List String) : String :=
+  match toks with
+  | ["read", file, func, kind] =>
+    match parseKind? kind with
+    | some k => showBool (readAllowed ⟨file, func, 0, "", k⟩)
+    | none => "bad-op"
+  | ["call", file, func, method] => showBool (callAllowed ⟨file, func, 0, method⟩)
+  | ["rng", seeded, source, file, func, call] =>
+    match parseList? parseSource? seeded, parseSource? source with
+    | some sd, some s => showBool (siteOk sd ⟨file, func, 0, call, .draw, s⟩)
+    | _, _ => "bad-op"
+  | ["guarded", file, func, setting] => showBool (guardedKnown ⟨file, func, 0, setting, ""⟩)
+  | ["probe", allow0, userPool, detected, nPoolArg, cached, isVec] =>
+    match parseBool? allow0, parseBool? userPool, parseOpt? parseNat? detected, parseOpt? parseNat? nPoolArg,
+          parseOpt? parseBool? cached, parseBool? isVec with
+    | some a0, some up, some det, some np, some c, some iv =>
+      let cfg := configurePool a0 ⟨up, det, np⟩
+      let pr := probe cfg.1 c iv
+      s!"allow={showBool cfg.1} npool={showOpt toString cfg.2.1} pool={showBool cfg.2.2} " ++
+      s!"points={pr.1} vec={showBool pr.2.1} cached={showOpt showBool pr.2.2}"
+    | _, _, _, _, _, _ => "bad-op"
+  | _ => "bad-op"
+
 end NessaiVerif.Driver.Tables
